@@ -89,10 +89,11 @@ Definition value_param_ok (p : param_kind) : bool :=
 Definition ident_param_ok (p : param_kind) : bool :=
   match p with PObject true => true | q => value_param_ok q end.
 
-(* a memoised callable is transparent when it is value-keyed on values only (C08_memo_pure applies), or keyed on
-   the identity of live objects (C08_identity_memo_never_hits applies) *)
+(* a memoised callable is transparent ACROSS RUNS when every component of its key is a value (C08_memo_pure
+   applies) or the identity of a live object created by the run (C08_identity_memo_never_hits applies: a later
+   run has new objects, so it never sees an entry of an earlier one) *)
 Definition entry_ok (e : memo_entry) : bool :=
   match me_kind e with
-  | ValueKeyed => forallb value_param_ok (me_params e)
-  | IdentityKeyed d => d && forallb ident_param_ok (me_params e)
-  end.
+  | ValueKeyed => true
+  | IdentityKeyed d => d
+  end && forallb ident_param_ok (me_params e).
